@@ -1064,7 +1064,6 @@ func (app *App) updateActiveNodes(clusterState, clusterStateDcs map[string]*node
 	for _, hostname := range becomeActive {
 		err := app.enableSemiSyncOnSlave(hostname, clusterState[hostname], masterState)
 		if err != nil {
-			waitSlaveCount--
 			activeNodes = filterOut(activeNodes, []string{hostname})
 			continue
 		}
@@ -1076,6 +1075,8 @@ func (app *App) updateActiveNodes(clusterState, clusterStateDcs map[string]*node
 		}
 	}
 	if adjustAfter {
+		// some replicas may have failed to become semi-sync: the count must match the list we are going to publish
+		waitSlaveCount = app.switchHelper.GetRequiredWaitSlaveCount(activeNodes)
 		err := app.adjustSemiSyncOnMaster(masterNode, masterState, waitSlaveCount)
 		if err != nil {
 			app.logger.Error().Err(err).Msgf("failed to adjust semi-sync on master %s to %d", masterNode.Host(), waitSlaveCount)
